@@ -1,1 +1,51 @@
-(* C12 *)
+(* C12 — entropy codecs: exact inverse pairs with bit-exact consumption: the part proved so far.
+   The binary arithmetic coder of entropy/BinaryEntropyCodec.go (Model/BinCoder.v, uint64 wrap-around
+   and the junk bits the encoder keeps above bit 55 included), which is the coder of CM, TPAQ and
+   TPAQX: for EVERY predictor (any state machine, Get in [0, 4095], the same on both sides), every
+   block of bytes of every length (empty, below 64 bytes, across the internal chunk boundaries) and
+   whatever follows the block in the stream: if the encoder did not run out of its buffer (the Go
+   code panics there, the model returns None), the decoder returns exactly the block and leaves
+   exactly what follows - the next reader of the bit stream starts at the right bit.
+   The same holds for every pair of shifts with sb <= 8 and Get < 2^(sa+sb) (FPAQ: 8/8, 16 bits).
+   Not proved: the predictors themselves keep Get in range (observed on every run), the encoder never
+   runs out of its buffer with the real predictors, and the other codecs (HUFFMAN, ANS0/1, RANGE,
+   NONE; FPAQ's own chunking): decided by search with a sentinel on the real code. *)
+From Coq Require Import List NArith ZArith.
+From KV Require Import Model.OutBS Model.BinCoder Proofs.BinCoderProofs.
+Import ListNotations.
+Open Scope N_scope.
+
+Theorem C12_binary_coder_roundtrip : forall (PS : Type) (pget : PS -> N) (pupd : PS -> bool -> PS),
+  (forall ps, pget ps < 4096) ->
+  forall ps0 block out, bytes_ok block ->
+  encode 4 8 PS pget pupd ps0 block = Some out ->
+  forall rest, decode 4 8 PS pget pupd ps0 (N.of_nat (length block)) (out ++ rest) = DOk block rest.
+Proof.
+  intros PS pget pupd Hp ps0 block out Hok He rest.
+  apply (coder_roundtrip 4 8 ltac:(discriminate) PS pget pupd Hp ps0 block out Hok He rest).
+Qed.
+Print Assumptions C12_binary_coder_roundtrip.
+
+Theorem C12_binary_coder_roundtrip_any_precision : forall sa sb (PS : Type) (pget : PS -> N) (pupd : PS -> bool -> PS),
+  sb <= 8 -> (forall ps, pget ps < 2 ^ (sa + sb)) ->
+  forall ps0 block out, bytes_ok block ->
+  encode sa sb PS pget pupd ps0 block = Some out ->
+  forall rest, decode sa sb PS pget pupd ps0 (N.of_nat (length block)) (out ++ rest) = DOk block rest.
+Proof. intros sa sb PS pget pupd Hsb Hp. apply (coder_roundtrip sa sb Hsb PS pget pupd Hp). Qed.
+Print Assumptions C12_binary_coder_roundtrip_any_precision.
+
+(* VarInt, as used for the chunk sizes *)
+Theorem C12_varint_roundtrip : forall v r, v < 268435456 -> read_varint (varint v ++ r) = Some (v, r).
+Proof. exact varint_roundtrip. Qed.
+Print Assumptions C12_varint_roundtrip.
+
+(* an instance: a predictor that replays a fixed list of probabilities; 5 bytes, 4 bytes of tail *)
+Example C12_instance :
+  let pget := fun ps : list N => hd 2048 ps in
+  let pupd := fun (ps : list N) (_ : bool) => tl ps in
+  let ps0 := [100; 4000; 2048; 7; 4095; 0; 300; 2000; 1000; 3000; 50; 4000; 2048; 2048; 1; 4094] in
+  match encode 4 8 (list N) pget pupd ps0 [200; 3; 255; 0; 77] with
+  | Some out => decode 4 8 (list N) pget pupd ps0 5 (out ++ [1; 2; 3; 4]) = DOk [200; 3; 255; 0; 77] [1; 2; 3; 4] /\ (7 < length out)%nat
+  | None => False
+  end.
+Proof. vm_compute. split; [reflexivity|repeat constructor]. Qed.
